@@ -329,3 +329,145 @@ Proof.
       * exact H3.
     + inversion H; subst. repeat split; auto. right. eauto.
 Qed.
+
+(* ------------------------------------------------------------------------- *)
+(* 3. The spec, with its literal byte patterns turned into boolean tests      *)
+(* ------------------------------------------------------------------------- *)
+
+Definition strip0 (l : list N) : bool * list N :=
+  match l with 45 :: r => (true, r) | _ => (false, l) end.
+
+Definition tail0 (ng : bool) (ip gs r2 : list N) : option lit :=
+  match r2 with
+  | [] => if nonempty ip
+          then Some {| l_neg := ng; l_int := ip; l_frac := []; l_grouped := nonempty gs |}
+          else None
+  | 46 :: r3 =>
+      let '(fp, r4) := span_digits r3 in
+      match r4 with
+      | [] => if nonempty (ip ++ fp)
+              then Some {| l_neg := ng; l_int := ip; l_frac := fp; l_grouped := nonempty gs |}
+              else None
+      | _ => None
+      end
+  | _ => None
+  end.
+
+Lemma spec_scan_unfold : forall l,
+  spec_scan l =
+  let '(ng, body) := strip0 l in
+  let '(g0, r1) := span_digits body in
+  let '(gs, r2) := if (1 <=? length g0)%nat && (length g0 <=? 3)%nat then groups r1 else ([], r1) in
+  tail0 ng (g0 ++ gs) gs r2.
+Proof. reflexivity. Qed.
+
+Definition strip (l : list N) : bool * list N :=
+  match l with
+  | x :: r => if x =? 45 then (true, r) else (false, l)
+  | [] => (false, [])
+  end.
+
+Definition tail (ng : bool) (ip gs r2 : list N) : option lit :=
+  match r2 with
+  | [] => if nonempty ip
+          then Some {| l_neg := ng; l_int := ip; l_frac := []; l_grouped := nonempty gs |}
+          else None
+  | x :: r3 =>
+      if x =? 46 then
+        let '(fp, r4) := span_digits r3 in
+        match r4 with
+        | [] => if nonempty (ip ++ fp)
+                then Some {| l_neg := ng; l_int := ip; l_frac := fp; l_grouped := nonempty gs |}
+                else None
+        | _ => None
+        end
+      else None
+  end.
+
+Lemma strip0_eq : forall l, strip0 l = strip l.
+Proof.
+  intros [|x r]; [reflexivity|].
+  destruct (N.eqb_spec x 45) as [->|Hne].
+  - reflexivity.
+  - unfold strip0, strip. apply N.eqb_neq in Hne. rewrite Hne. apply N.eqb_neq in Hne.
+    destruct x as [|p]; [reflexivity|].
+    do 6 (try (destruct p as [p|p|]; try reflexivity)).
+    congruence.
+Qed.
+
+Lemma tail0_eq : forall ng ip gs r2, tail0 ng ip gs r2 = tail ng ip gs r2.
+Proof.
+  intros ng ip gs [|x r]; [reflexivity|].
+  destruct (N.eqb_spec x 46) as [->|Hne].
+  - reflexivity.
+  - unfold tail0, tail. apply N.eqb_neq in Hne. rewrite Hne. apply N.eqb_neq in Hne.
+    destruct x as [|p]; [reflexivity|].
+    do 6 (try (destruct p as [p|p|]; try reflexivity)).
+    congruence.
+Qed.
+
+Lemma spec_scan_eq : forall l,
+  spec_scan l =
+  let '(ng, body) := strip l in
+  let '(g0, r1) := span_digits body in
+  let '(gs, r2) := if (1 <=? length g0)%nat && (length g0 <=? 3)%nat then groups r1 else ([], r1) in
+  tail ng (g0 ++ gs) gs r2.
+Proof.
+  intros l. rewrite spec_scan_unfold, strip0_eq.
+  destruct (strip l) as [ng body]. destruct (span_digits body) as [g0 r1].
+  destruct (if (1 <=? length g0)%nat && (length g0 <=? 3)%nat then groups r1 else ([], r1)) as [gs r2].
+  apply tail0_eq.
+Qed.
+
+Lemma groups_eq : forall l,
+  groups l = match l with
+             | x :: a :: b :: c :: r =>
+                 if (x =? 44) && (is_digit a && is_digit b && is_digit c)
+                 then let '(ds, rest) := groups r in (a :: b :: c :: ds, rest)
+                 else ([], l)
+             | _ => ([], l)
+             end.
+Proof.
+  intros [|x l]; [reflexivity|].
+  destruct (N.eqb_spec x 44) as [->|Hne].
+  - destruct l as [|a [|b [|c r]]]; reflexivity.
+  - assert (H : groups (x :: l) = ([], x :: l)).
+    { destruct x as [|p]; [reflexivity|].
+      do 6 (try (destruct p as [p|p|]; try reflexivity)).
+      congruence. }
+    rewrite H. destruct l as [|a [|b [|c r]]]; reflexivity.
+Qed.
+
+Definition stops (l : list N) : Prop :=
+  forall a b c r, l = 44 :: a :: b :: c :: r ->
+                  is_digit a && is_digit b && is_digit c = false.
+
+Inductive Groups : list N -> list N -> list N -> Prop :=
+| G_nil : forall l, stops l -> Groups l [] l
+| G_cons : forall a b c r gs rest,
+    is_digit a = true -> is_digit b = true -> is_digit c = true ->
+    Groups r gs rest -> Groups (44 :: a :: b :: c :: r) (a :: b :: c :: gs) rest.
+
+Lemma groups_Groups_aux : forall n l gs r2,
+  (length l <= n)%nat -> groups l = (gs, r2) -> Groups l gs r2.
+Proof.
+  induction n as [|n IH]; intros l gs r2 Hn H.
+  - destruct l; [|cbn in Hn; lia]. cbn in H. inversion H; subst.
+    apply G_nil. intros a b c r Hr. discriminate.
+  - rewrite groups_eq in H.
+    destruct l as [|x [|a [|b [|c r]]]];
+      try (inversion H; subst; apply G_nil; intros a' b' c' r' Hr; discriminate).
+    destruct ((x =? 44) && (is_digit a && is_digit b && is_digit c)) eqn:E.
+    + destruct (groups r) as [ds rest] eqn:Eg. inversion H; subst.
+      apply andb_prop in E. destruct E as [Ex E].
+      apply andb_prop in E. destruct E as [E Ec].
+      apply andb_prop in E. destruct E as [Ea Eb].
+      apply N.eqb_eq in Ex. subst x.
+      apply G_cons; try assumption.
+      apply IH; [|exact Eg]. cbn [length] in Hn. lia.
+    + inversion H; subst. apply G_nil. intros a' b' c' r' Hr. inversion Hr; subst.
+      rewrite N.eqb_refl in E. cbn [andb] in E. exact E.
+Qed.
+
+Lemma groups_Groups : forall l gs r2, groups l = (gs, r2) -> Groups l gs r2.
+Proof. intros l gs r2. apply (groups_Groups_aux (length l)). lia. Qed.
